@@ -127,7 +127,10 @@ def vars_in(fn, nid):
 
 
 def cursor_lvalue(fn, text):
-    """canonical text of the pointer lvalue that the read `text` goes through (`*s` -> `s`, `**s` -> `*s`)"""
+    """canonical text of the pointer lvalue that the read `text` goes through (`*s` -> `s`, `**s` -> `*s`); for a
+    by-value character variable (text without `*`) the variable itself"""
+    if not text.startswith('*'):
+        return text
     for n in fn.all_nodes():
         if n.get('k') == 'unop' and n.get('op') == '*' and fn.expr(n['id']) == text:
             return fn.expr(fn.strip(n['sub']))
@@ -147,6 +150,15 @@ def lvalue_modifications(fn, ptext):
     return out
 
 
+def read_text(fn, n):
+    """canonical text of the byte read n = `*p`, ignoring an increment applied to the pointer in the same expression
+    (`*p++` reads through p)"""
+    x = fn.sn(n['sub'])
+    while x is not None and x.get('k') == 'unop' and x.get('op') in ('++', '--'):
+        x = fn.sn(x['sub'])
+    return '*' + (fn.expr(x['id']) if x is not None else '?')
+
+
 def cursor_text(fn):
     """Canonical text of THE byte read through a pointer variable (`*s`, `*data`) of this function; exactly one expected."""
     texts = set()
@@ -154,17 +166,23 @@ def cursor_text(fn):
         if n.get('k') == 'unop' and n.get('op') == '*':
             ty = int_type(n.get('t'))
             if ty is not None and ty[1] == 8 and fn.root_var(n['id']) is not None and fn.root_var(n['id'])[0] == 'var':
-                texts.add(fn.expr(n['id']))
+                texts.add(read_text(fn, n))
     if len(texts) != 1:
         raise Broken('%s: expected exactly one byte cursor, found %s' % (fn.q, sorted(texts)))
     return texts.pop()
+
+
+def _is_text(fn, n, text):
+    if n.get('k') == 'unop' and n.get('op') == '*':
+        return text.startswith('*') and fn.expr(n['id']) == text
+    return n.get('k') == 'var' and n.get('vk') in ('local', 'param') and n.get('name') == text
 
 
 def _is_read(fn, nid, text):
     n = fn.sn(nid)
     while n is not None and n.get('k') == 'cast' and n.get('ck') in ('NoOp', 'IntegralCast') and int_type(n.get('t')) is not None and int_type(n.get('t'))[1] == 8:
         n = fn.sn(n['sub'])
-    return n is not None and n.get('k') == 'unop' and n.get('op') == '*' and fn.expr(n['id']) == text
+    return n is not None and _is_text(fn, n, text)
 
 
 def char_aliases(fn, text):
@@ -174,6 +192,7 @@ def char_aliases(fn, text):
     if text in cached:
         return cached[text]
     cand = set()
+    derived = set()     # pointer locals initialised by a helper call on the byte: `const char* e = entity_for(*data);`
     defs = {}
     for n in fn.all_nodes():
         if n.get('k') == 'decl':
@@ -184,6 +203,13 @@ def char_aliases(fn, text):
                     defs.setdefault(n['id'], []).append((v['d'], cp))
                     if cp:
                         cand.add(v['d'])
+                elif '*' in v.get('tC', '') and isinstance(v.get('init'), int):
+                    c = fn.sn(v['init'])
+                    if c is not None and c.get('k') == 'call' and 'q' in c and len([a for a in c.get('args', []) if a is not None]) == 1 \
+                            and helper_returns(c['q'], True) is not None:
+                        defs.setdefault(n['id'], []).append((v['d'], c))
+                        cand.add(v['d'])
+                        derived.add(v['d'])
         elif n.get('k') == 'assign':
             l = fn.sn(n['lhs'])
             if l is not None and l.get('k') == 'var' and int_type(l.get('t')) is not None and int_type(l.get('t'))[1] == 8:
@@ -197,14 +223,77 @@ def char_aliases(fn, text):
                 defs.setdefault(n['id'], []).append((s_['d'], False))
     defs = {e: [(d, cp) for (d, cp) in ds if d in cand] for e, ds in defs.items()}
     defs = {e: ds for e, ds in defs.items() if ds}
-    cached[text] = (cand, defs)
+    cached[text] = (cand, defs, derived)
     return cached[text]
+
+
+_FB = [None]
+
+
+def set_fact_base(fb):
+    """fact base used to look up the bodies of small helper functions (treated as inlined)"""
+    _FB[0] = fb
+
+
+def helper_returns(q, signed):
+    """For a pure helper `T f(char c)` with its body in the fact base: [(byte set of c, kind, value)] for every return,
+    kind in ('lit', 'null', 'other').  None if q is not such a helper."""
+    fb = _FB[0]
+    if fb is None:
+        return None
+    cands = fb.fns(q)
+    if not cands or len({g.pat for g in cands}) != 1:
+        return None
+    g = cands[0]
+    cache = g.__dict__.setdefault('_c14_helper', {})
+    if signed in cache:
+        return cache[signed]
+    res = None
+    if len(g.params) == 1 and int_type(g.params[0]['tC']) is not None and int_type(g.params[0]['tC'])[1] == 8 and g.has_cfg:
+        pure = not any(x.get('k') in ('call', 'construct', 'new', 'delete', 'throw') for x in g.all_nodes())
+        rets = [x for x in g.all_nodes() if x.get('k') == 'return' and 'sub' in x]
+        if pure and rets:
+            text = g.params[0]['name']
+            res = []
+            try:
+                states = byte_states(g, text, signed)[0]
+                for r in rets:
+                    S = states.get(_elem_of(g, r['id']), ISet())
+                    v = g.sn(r['sub'])
+                    lit = string_literal(g, r['sub'])
+                    if lit is not None:
+                        res.append((S, 'lit', lit))
+                    elif v is not None and (v.get('null') or g.const_value(r['sub']) == 0):
+                        res.append((S, 'null', None))
+                    else:
+                        res.append((S, 'other', None))
+            except (Broken, Unsupported):
+                res = None
+    cache[signed] = res
+    return res
+
+
+def _null_test(fn, cond):
+    """(decl id, True if the condition holds when the pointer is non-null) for `p`, `!p`, `p != nullptr`, `p == nullptr`"""
+    n = fn.sn(cond)
+    if n is None:
+        return None
+    if n.get('k') == 'var':
+        return n.get('d'), True
+    if n.get('k') == 'unop' and n.get('op') == '!':
+        r = _null_test(fn, n['sub'])
+        return (r[0], not r[1]) if r else None
+    if n.get('k') == 'binop' and n.get('op') in ('==', '!='):
+        for a, b in ((n['lhs'], n['rhs']), (n['rhs'], n['lhs'])):
+            x, y = fn.sn(a), fn.sn(b)
+            if x is not None and x.get('k') == 'var' and y is not None and (y.get('null') or fn.const_value(b) == 0):
+                return x.get('d'), n['op'] == '!='
+    return None
 
 
 def char_leaf(text, valid):
     """leaf predicate: the read `text` itself or a local that currently holds a copy of it"""
-    return lambda fn, n: ((n.get('k') == 'unop' and n.get('op') == '*' and fn.expr(n['id']) == text)
-                          or (n.get('k') == 'var' and n.get('d') in valid))
+    return lambda fn, n: _is_text(fn, n, text) or (n.get('k') == 'var' and n.get('d') in valid)
 
 
 def byte_states(fn, text, signed):
@@ -218,12 +307,16 @@ def byte_states(fn, text, signed):
     cache = fn.__dict__.setdefault('_c14_bytes', {})
     if (text, signed) in cache:
         return cache[(text, signed)]
-    cand, adefs = char_aliases(fn, text)
+    cand, adefs, derived = char_aliases(fn, text)
+    dcalls = {dd: c for ds in adefs.values() for (dd, c) in ds if isinstance(c, dict)}
     mods = set(lvalue_modifications(fn, cursor_lvalue(fn, text)))
+    if not text.startswith('*'):
+        # by-value character variable: every (re)declaration starts a new value
+        mods |= {n['id'] for n in fn.all_nodes() if n.get('k') == 'decl' and any(v['name'] == text for v in n['vars'])}
     truth_cache = {}
 
     def mentions(cond, valid):
-        if text in char_reads(fn, cond):
+        if any(_is_text(fn, fn.nodes[x], text) for x in fn.subtree(cond)):
             return True
         return bool(vars_in(fn, cond) & valid)
 
@@ -238,7 +331,7 @@ def byte_states(fn, text, signed):
         r = None
         if blk.get('termcls') == 'SwitchStmt':
             c = fn.sn(blk['cond'])
-            if c is not None and char_leaf(text, valid)(fn, c):
+            if c is not None and char_leaf(text, valid - derived)(fn, c):
                 labels = {}
                 for s_ in blk['succs']:
                     if s_ is None:
@@ -247,9 +340,21 @@ def byte_states(fn, text, signed):
                     if 'case' in lab and fn.const_value(lab['case']) is not None:
                         labels.setdefault(s_, []).append(fn.const_value(lab['case']) & 0xff)
                 r = ('switch', labels)
-        elif len(blk['succs']) == 2 and mentions(blk['cond'], valid):
+        elif len(blk['succs']) == 2 and _null_test(fn, blk['cond']) is not None and _null_test(fn, blk['cond'])[0] in (valid & derived):
+            dd, nonnull = _null_test(fn, blk['cond'])
+            hr = helper_returns(dcalls[dd]['q'], signed)
+            N = Z = ISet()
+            for (S, kind, _v) in hr or ():
+                if kind == 'null':
+                    Z = Z | S
+                else:
+                    N = N | S
+            if hr is not None and not (N & Z):
+                r = ('cond', N if nonnull else BYTES - N)
+        elif len(blk['succs']) == 2 and mentions(blk['cond'], valid - derived):
             try:
-                r = ('cond', char_truth(fn, blk['cond'], char_leaf(text, valid), signed))
+                r = ('cond', char_truth(fn, blk['cond'], char_leaf(text, valid - derived), signed,
+                                        callee=make_callee_summary(_FB[0]) if _FB[0] is not None else None))
             except Unsupported:
                 r = None
         truth_cache[key] = r
@@ -268,6 +373,10 @@ def byte_states(fn, text, signed):
             if e in mods:
                 st, valid = BYTES, frozenset()
             for (dd, cp) in adefs.get(e, ()):
+                if isinstance(cp, dict):      # helper call on the byte under the cursor (or on a valid copy of it)
+                    a0 = next(a for a in cp['args'] if a is not None)
+                    x0 = fn.sn(a0)
+                    cp = _is_read(fn, a0, text) or (x0 is not None and x0.get('k') == 'var' and x0.get('d') in (valid - derived))
                 valid = (valid | {dd}) if cp else (valid - {dd})
         r = edge_refine(b, valid)
         if r is not None and r[0] == 'cond':
@@ -321,7 +430,48 @@ def char_guard_set(fn, nid, text):
 
 def valid_copies(fn, nid, text):
     """locals that hold a copy of the read `text` when node nid executes"""
-    return byte_states(fn, text, True)[1].get(_elem_of(fn, nid), frozenset())
+    return byte_states(fn, text, True)[1].get(_elem_of(fn, nid), frozenset()) - char_aliases(fn, text)[2]
+
+
+def derived_helper(fn, arg, at, text):
+    """If expression `arg` (part of node `at`) is a pointer local that currently holds the result of a helper call on the
+    byte under the cursor: the qualified name of that helper, else None."""
+    n = fn.sn(arg)
+    if n is None or n.get('k') != 'var':
+        return None
+    cand, adefs, derived = char_aliases(fn, text)
+    sub = set(fn.subtree(at))
+    first = next((e for e in fn.blocks[fn.positions()[at][0]]['elems'] if e in sub), at)
+    valid = byte_states(fn, text, True)[1].get(_elem_of(fn, first), frozenset())
+    if n.get('d') in (valid & derived):
+        for ds in adefs.values():
+            for (dd, c) in ds:
+                if dd == n['d'] and isinstance(c, dict):
+                    return c['q']
+    return None
+
+
+def input_byte_locals(fn, text):
+    """names of 8-bit locals all of whose definitions read a byte through the cursor of `text` (also `*p++`)"""
+    ptext = cursor_lvalue(fn, text)
+    ok, bad = set(), set()
+
+    def from_cursor(e):
+        n = fn.sn(e)
+        while n is not None and n.get('k') == 'cast' and int_type(n.get('t')) is not None and int_type(n.get('t'))[1] == 8:
+            n = fn.sn(n['sub'])
+        return n is not None and n.get('k') == 'unop' and n.get('op') == '*' and read_text(fn, n) == '*' + ptext
+    for n in fn.all_nodes():
+        if n.get('k') == 'decl':
+            for v in n['vars']:
+                ty = int_type(v.get('tC'))
+                if ty is not None and ty[1] == 8:
+                    (ok if isinstance(v.get('init'), int) and from_cursor(v['init']) else bad).add(v['name'])
+        elif n.get('k') == 'assign':
+            l = fn.sn(n['lhs'])
+            if l is not None and l.get('k') == 'var' and l.get('vk') == 'local':
+                (ok if n['op'] == '=' and from_cursor(n['rhs']) else bad).add(l['name'])
+    return ok - bad
 
 
 def is_current_char(fn, arg, at, text):
@@ -333,6 +483,80 @@ def is_current_char(fn, arg, at, text):
         return True
     first = next((e for e in fn.blocks[fn.positions()[at][0]]['elems'] if e in set(fn.subtree(at))), at)
     return n.get('k') == 'var' and n.get('d') in valid_copies(fn, first, text)
+
+
+def forward_reach(fn, a, b):
+    """element a can execute before element b in the same pass (CFG reachability without loop back edges)"""
+    pos = fn.positions()
+    if a not in pos or b not in pos:
+        return False
+    (ba, ia), (bb, ib) = pos[a], pos[b]
+    if ba == bb:
+        return ia < ib
+    dom = fn.dominators()
+    seen = {ba}
+    dq = deque([ba])
+    while dq:
+        x = dq.popleft()
+        for s_ in fn.succs(x):
+            if s_ in dom.get(x, ()) or s_ in seen:      # back edge: the target dominates the source
+                continue
+            if s_ == bb:
+                return True
+            seen.add(s_)
+            dq.append(s_)
+    return False
+
+
+def loop_iterations(fn, loop, limit=64):
+    """(decl id of the induction variable, [its value in each iteration]) of a counted loop `for (T i = C0; i <op> C1; i -= C2)`
+    whose variable is changed only by one constant step after the body; Broken otherwise."""
+    heads = [b for b in fn.blocks.values() if b.get('termcls') in ('ForStmt', 'WhileStmt') and 'cond' in b and len(b['succs']) == 2
+             and fn.in_range(b['cond'], loop['b'], loop['e'])]
+    inner = [l for l in fn.loops if l is not loop and loop['b'] <= l['b'] and l['e'] <= loop['e']]
+    if len(heads) != 1 or inner:
+        raise Broken('%s: loop shape not recognised (nested loops / no single head)' % fn.q)
+    c = fn.sn(heads[0]['cond'])
+    if c is None or c.get('k') != 'binop' or c['op'] not in ('<', '<=', '>', '>=', '!='):
+        raise Broken('%s: loop condition %s is not a comparison of a counter with a constant' % (fn.q, fn.expr(heads[0]['cond'])))
+    var = lim = None
+    op = c['op']
+    for (a, b, flip) in ((c['lhs'], c['rhs'], False), (c['rhs'], c['lhs'], True)):
+        x = fn.sn(a)
+        if x is not None and x.get('k') == 'var' and x.get('vk') == 'local' and fn.const_value(b) is not None:
+            var, lim = x, fn.const_value(b)
+            if flip:
+                op = {'<': '>', '<=': '>=', '>': '<', '>=': '<=', '!=': '!='}[op]
+    if var is None:
+        raise Broken('%s: loop counter not recognised' % fn.q)
+    d = var['d']
+    init, _decl = local_init(fn, d)
+    v0 = fn.const_value(init) if init is not None else None
+    mods = modifications(fn, d)
+    if v0 is None or len(mods) != 1 or not fn.in_range(mods[0], loop['b'], loop['e']):
+        raise Broken('%s: loop counter is not a constant-initialised local with a single update in the loop' % fn.q)
+    m = fn.nodes[mods[0]]
+    if m.get('k') == 'unop' and m['op'] in ('++', '--'):
+        step = 1 if m['op'] == '++' else -1
+    elif m.get('k') == 'assign' and m['op'] in ('+=', '-=') and fn.const_value(m['rhs']) is not None:
+        step = fn.const_value(m['rhs']) * (1 if m['op'] == '+=' else -1)
+    else:
+        raise Broken('%s: loop counter update %s not recognised' % (fn.q, fn.expr(mods[0])))
+    ty = int_type(var.get('t'))
+    if ty is None or step == 0:
+        raise Broken('%s: loop counter type / step not recognised' % fn.q)
+    lo, hi = (-(1 << (ty[1] - 1)), (1 << (ty[1] - 1)) - 1) if ty[0] else (0, (1 << ty[1]) - 1)
+    test = {'<': lambda x: x < lim, '<=': lambda x: x <= lim, '>': lambda x: x > lim, '>=': lambda x: x >= lim, '!=': lambda x: x != lim}[op]
+    vals = []
+    v = v0
+    while test(v):
+        vals.append(v)
+        if len(vals) > limit:
+            raise Broken('%s: loop with more than %d iterations' % (fn.q, limit))
+        v += step
+        if v < lo or v > hi:
+            v = lo + ((v - lo) % (1 << ty[1]))      # two's complement wrap of the counter type
+    return d, vals, mods[0]
 
 
 def depends_on(fn, nid, d, resolve, depth=0):
@@ -350,12 +574,12 @@ def depends_on(fn, nid, d, resolve, depth=0):
     return False
 
 
-def var_guard_set(fn, nid, d, domain, resolve=None, callee=None):
+def var_guard_set(fn, nid, d, domain, resolve=None, callee=None, char_signed=True, consts=None):
     """Exact set of values of the integer variable d (inside domain) under which node nid executes.  Guards that do not
     depend on d (directly or through locals resolved by `resolve`) constrain other state and are ignored; a guard that
     depends on d must be evaluable exactly."""
     S = domain
-    p = Pred(fn, var_leaf(d), domain, resolve, callee=callee)
+    p = Pred(fn, var_leaf(d), domain, resolve, char_signed, callee=callee, consts=consts)
     for (c, sense, _blk) in guards(fn, nid):
         if not depends_on(fn, c, d, resolve):
             continue
@@ -375,7 +599,7 @@ def make_callee_summary(fb):
     helper's body is evaluated like inlined code (guards of every return + truth set of the returned expression)."""
     from .charset import unique_def_resolver
 
-    def callee(fn, n, domain, depth=0):
+    def callee(fn, n, domain, char_signed=True, depth=0):
         if depth > 3 or n.get('k') != 'call' or 'q' not in n or n.get('recv') is not None:
             return None
         cands = fb.fns(n['q'])
@@ -393,14 +617,14 @@ def make_callee_summary(fb):
             if x.get('k') in ('call', 'construct', 'new', 'delete', 'throw') or (x.get('k') == 'assign' and (g.sn(x['lhs']) or {}).get('vk') != 'local'):
                 return None
         res = unique_def_resolver(g)
-        sub = lambda f_, nn, dom: callee(f_, nn, dom, depth + 1)
-        p = Pred(g, var_leaf(d), domain, res, callee=sub)
+        sub = lambda f_, nn, dom, cs=True: callee(f_, nn, dom, cs, depth + 1)
+        p = Pred(g, var_leaf(d), domain, res, char_signed, callee=sub)
         out = ISet()
         rets = [x for x in g.all_nodes() if x.get('k') == 'return' and 'sub' in x]
         if not rets:
             return None
         for r in rets:
-            G = var_guard_set(g, r['id'], d, domain, res, sub)
+            G = var_guard_set(g, r['id'], d, domain, res, sub, char_signed)
             out = out | (G & p.truth(r['sub']))
         return 0, out
     return callee
